@@ -7,6 +7,12 @@ MUT = [
  ("C07", "qkeras/quantizers.py", "      return x_u + tf.stop_gradient(self.qnoise_factor * (-x_u + xq))", "      return x_u + tf.stop_gradient(self.qnoise_factor * (x_u - xq))", "quantized_relu"),
  ("C07", "qkeras/callbacks.py", "      val = float(self.finish - freq) / float(self.finish - self.start)", "      val = float(freq - self.start) / float(self.finish - self.start)", "schedule"),
  ("C07", "qkeras/callbacks.py", "    if freq % self.update_freq != 0:\n      self.num_iters += 1\n      return", "    if freq % self.update_freq != 0:\n      return", "epoch_on_epoch_begin"),
+ ("C09", "qkeras/quantizers.py", '        "bits": self.bits,\n        "symmetric": self.symmetric,\n        "use_stochastic_rounding": self.use_stochastic_rounding,\n        "use_real_tanh": self.use_real_tanh', '        "bits": self.bits,\n        "use_stochastic_rounding": self.use_stochastic_rounding,\n        "use_real_tanh": self.use_real_tanh', "quantized_tanh"),
+ ("C09", "qkeras/quantizers.py", '        "max_po2_exponent": self.max_po2_exponent\n    }', '        "max_po2_exponent": self.min_po2_exponent\n    }', "binary"),
+ ("C06", "qkeras/quantizers.py", "    output = x + tf.stop_gradient(-x + tf.round(x))\n  return output", "    output = tf.round(x)\n  return output", "quantized_"),
+ ("C08", "qkeras/quantizers.py", "  result = tf.where(fraction < tf.random.uniform(tf.shape(x)),", "  result = tf.where(fraction > tf.random.uniform(tf.shape(x)),", "stochastic_round"),
+ ("C03", "qkeras/quantizers.py", "  min_exp = -2**(effect_bits)\n", "  min_exp = -2**(effect_bits) + 1\n", "quantized_po2"),
+ ("C03", "qkeras/quantizers.py", "  x_clipped = tf.where(\n      x_abs < eps,\n      tf.ones_like(x_abs) * min_exp,", "  x_clipped = tf.where(\n      x_abs < 0,\n      tf.ones_like(x_abs) * min_exp,", "quantized_po2"),
  ("C16", "qkeras/qtools/quantized_operators/multiplier_impl.py", "    self.output.int_bits = self.input.int_bits + self.weights.int_bits", "    self.output.int_bits = max(self.input.int_bits, self.weights.int_bits)", "qbits_x_qbits"),
  ("C17", "qkeras/qtools/quantized_operators/accumulator_impl.py", "    self.log_add_ops = int(np.ceil(np.log2(add_ops)))", "    self.log_add_ops = int(np.floor(np.log2(add_ops)))", "qbits_rank2"),
  ("C17", "qkeras/qtools/quantized_operators/adder_impl.py", "    fractional_bits = max(fractional_bits1, fractional_bits2)", "    fractional_bits = min(fractional_bits1, fractional_bits2)", "qbits_plus_qbits"),
